@@ -14,6 +14,11 @@ M7 (optimiser): the pieces of `einx/_src/tracer/optimizer` that the C05 theorems
   output -- checked on every real pass by `tools/props/c05.py`).
 * `equivProgs`: the check behind the driver kind `equiv` (two programs have cell-for-cell identical
   symbolic results); `Props/C05.lean` proves that acceptance means equality for all tensor contents.
+* `Term` / `rewrite` (one pass of the six patterns on a tree), `Rule` / `Rewrites` (the patterns as a rewrite
+  system, any order), `Term.evalWith` / `Term.eval` (what a term computes, by `step`), `evalLetsWith` /
+  `rewriteLets` / `unfoldLets` (sharing as let-bindings): the objects of the whole-pass theorems
+  `rewrite_sound`, `optimize_sound`, `rebuild_preserves` of `Props/C05.lean`.  None of these is executed by the
+  driver (its kinds `equiv`, `equiv_progs`, `kernel` use `equivG`, `Extracted.*` only).
 -/
 namespace Einx.Optimize
 open Einx Einx.IR
@@ -125,6 +130,147 @@ def rewrite : Term → Term × Bool
     else (.concat2 (rewrite x).1 (rewrite y).1 axis, (rewrite x).2 || (rewrite y).2)
   | .cast x => ((rewrite x).1, true)                                                -- SkipCast
   | .op2 f x y s => (.op2 f (rewrite x).1 (rewrite y).1 s, (rewrite x).2 || (rewrite y).2)
+
+/-! ### The patterns as a rewrite system (independent of the traversal strategy)
+
+`Rule` is one application of a pattern at the root of a term (the test and the replacement of the pattern, on the
+`Extracted.*` tests and composition); `Rewrites` is its closure under contexts, sequencing and doing nothing: patterns
+applied anywhere, any number of times, in any order.  `rewrite` is one strategy (`rewrite_rewrites`,
+Proofs/OptimizeSound.lean); the memoised top-down traversal of `Optimizer._optimize` is another.  A merge through
+`_skip_id` (`reshape(cast(reshape(x, s1)), s)` → `reshape(x, s)`) is `skipCast` under the outer node followed by
+`reshapeMerge`, so it needs no rule of its own. -/
+
+inductive Rule : Term → Term → Prop
+  | reshapeNoop (x : Term) (s : List Nat) : Extracted.reshapeNoop s x.shape = true → Rule (.reshape x s) x
+  | reshapeMerge (x : Term) (s1 s : List Nat) : Rule (.reshape (.reshape x s1) s) (.reshape x s)
+  | transposeNoop (x : Term) (p : List Nat) : Extracted.transposeNoop p x.shape.length = true → Rule (.transpose x p) x
+  | transposeMerge (x : Term) (p1 p2 p : List Nat) : Extracted.composePerm p1 p2 = some p →
+      Rule (.transpose (.transpose x p1) p2) (.transpose x p)
+  | broadcastNoop (x : Term) (s : List Nat) : Extracted.broadcastNoop s x.shape = true → Rule (.broadcastTo x s) x
+  | concatNoop (x : Term) (axis : Nat) : Extracted.concatNoop 1 = true → Rule (.concat1 x axis) x
+  | skipCast (x : Term) : Rule (.cast x) x
+
+inductive Rewrites : Term → Term → Prop
+  | refl (t : Term) : Rewrites t t
+  | rule {t t' : Term} : Rule t t' → Rewrites t t'
+  | trans {a b c : Term} : Rewrites a b → Rewrites b c → Rewrites a c
+  | reshape {x x' : Term} (s : List Nat) : Rewrites x x' → Rewrites (.reshape x s) (.reshape x' s)
+  | transpose {x x' : Term} (p : List Nat) : Rewrites x x' → Rewrites (.transpose x p) (.transpose x' p)
+  | broadcastTo {x x' : Term} (s : List Nat) : Rewrites x x' → Rewrites (.broadcastTo x s) (.broadcastTo x' s)
+  | concat1 {x x' : Term} (axis : Nat) : Rewrites x x' → Rewrites (.concat1 x axis) (.concat1 x' axis)
+  | concat2 {x x' y y' : Term} (axis : Nat) : Rewrites x x' → Rewrites y y' →
+      Rewrites (.concat2 x y axis) (.concat2 x' y' axis)
+  | cast {x x' : Term} : Rewrites x x' → Rewrites (.cast x) (.cast x')
+  | op2 {x x' y y' : Term} (f : String) (s : List Nat) : Rewrites x x' → Rewrites y y' →
+      Rewrites (.op2 f x y s) (.op2 f x' y' s)
+
+/-! ### What a term computes
+
+`Term.evalWith` gives a term the semantics of the IR executor: a node evaluates its operands, puts the results
+into a fresh register file (`[v]` or `[a, b]`) and executes **one instruction of `IR.evalProg`** on it
+(`step` = `planInstr` from the operand shapes, then `runPlan`; `step_iff_evalProg` below).  The instructions
+are the numpy primitives the validator executes (`Instr.reshape/transpose/broadcastTo/concat`); `cast` is the
+identity.  `op2 f` is "any other call" -- the patterns never look at it -- so its meaning is a parameter
+`O : Op2 α` (any partial function of the two operand values); `Term.eval` instantiates it with the binary
+elementwise call `f` with numpy broadcasting (`ewiseOp` = `Instr.ewise`).
+
+The shapes stored in a term are the *traced* shapes (`Tracer.shape`), which the patterns read instead of the
+run-time shapes.  A term is only meaningful when they are true: `input i s` evaluates to input `i` provided
+its shape is `s`, `op2 _ _ _ s` checks that the result has shape `s`; everything else has its shape
+determined by its operands (`Term.shape`), which `eval_shape` (Proofs/OptimizeSound.lean) proves. -/
+
+/-- Meaning of the calls the patterns do not inspect: a partial function of the operand values. -/
+abbrev Op2 (α : Type) := String → Tensor α → Tensor α → E (Tensor α)
+
+/-- The results of `O` have data of the size their shapes say. -/
+def Op2.WF {α : Type} (O : Op2 α) : Prop :=
+  ∀ f a b r, O f a b = .ok r → r.data.length = prod r.shape
+
+def Term.evalWith {α : Type} (A : Alg α) (O : Op2 α) (inputs : List (Tensor α)) : Term → E (Tensor α)
+  | .input i s =>
+    match inputs[i]? with
+    | some t => if t.shape = s then pure t else throw s!"input {i}: traced shape {s}, actual shape {t.shape}"
+    | none => throw s!"input {i} undefined"
+  | .reshape x s => do
+    let v ← x.evalWith A O inputs
+    step A [v] (.reshape 0 s)
+  | .transpose x p => do
+    let v ← x.evalWith A O inputs
+    step A [v] (.transpose 0 p)
+  | .broadcastTo x s => do
+    let v ← x.evalWith A O inputs
+    step A [v] (.broadcastTo 0 s)
+  | .concat1 x axis => do
+    let v ← x.evalWith A O inputs
+    step A [v] (.concat [0] axis)
+  | .concat2 x y axis => do
+    let a ← x.evalWith A O inputs
+    let b ← y.evalWith A O inputs
+    step A [a, b] (.concat [0, 1] axis)
+  | .cast x => x.evalWith A O inputs
+  | .op2 f x y s => do
+    let a ← x.evalWith A O inputs
+    let b ← y.evalWith A O inputs
+    let r ← O f a b
+    if r.shape = s then pure r else throw s!"{f}: traced shape {s}, actual shape {r.shape}"
+
+/-- `f(a, b)` as the elementwise numpy call with broadcasting: one `Instr.ewise` on the register file `[a, b]`. -/
+def ewiseOp {α : Type} (A : Alg α) : Op2 α := fun f a b => step A [a, b] (.ewise f [.reg 0, .reg 1])
+
+/-- The term model evaluated entirely by the primitive plans of IR/Prim.lean. -/
+abbrev Term.eval {α : Type} (A : Alg α) (inputs : List (Tensor α)) (t : Term) : E (Tensor α) :=
+  t.evalWith A (ewiseOp A) inputs
+
+/-- `step` is a run of the program evaluator on a one-instruction program. -/
+theorem step_iff_evalProg {α : Type} (A : Alg α) (regs : List (Tensor α)) (i : Instr) (t : Tensor α) :
+    step A regs i = .ok t ↔ evalProg A [i] regs = .ok (regs ++ [t]) := by
+  rw [evalProg_cons]
+  cases h : step A regs i with
+  | error e => simp [bind, Except.bind]
+  | ok t' =>
+    simp only [bind, Except.bind, evalProg, pure, Except.pure, Except.ok.injEq]
+    constructor
+    · intro h; rw [h]
+    · intro h; exact (List.append_cancel_left h |> List.cons.inj).1
+
+/-! ### Sharing: a graph as a list of let-bound terms (SSA)
+
+A value with several consumers is bound once: binding `k` is a term over the register file
+`inputs ++ [values of the bindings before k]` (a leaf `input i s` with `i ≥ inputs.length` reads an earlier
+binding), so the value of a binding is computed once and read by all its consumers.  The memoised rebuild of
+`Optimizer._optimize` (`id_to_newobj`: a node is rewritten once, every consumer receives the same rewritten
+object) is `rewriteLets`: every binding is rewritten once, consumers keep referring to it by its position. -/
+
+/-- Evaluate the bindings in order; the result is the extended register file. -/
+def evalLetsWith {α : Type} (A : Alg α) (O : Op2 α) : List Term → List (Tensor α) → E (List (Tensor α))
+  | [], env => pure env
+  | b :: bs, env => do
+    let v ← b.evalWith A O env
+    evalLetsWith A O bs (env ++ [v])
+
+abbrev evalLets {α : Type} (A : Alg α) (bs : List Term) (env : List (Tensor α)) : E (List (Tensor α)) :=
+  evalLetsWith A (ewiseOp A) bs env
+
+/-- One memoised pass over a list of bindings. -/
+def rewriteLets (bs : List Term) : List Term × Bool :=
+  (bs.map (fun b => (rewrite b).1), bs.any (fun b => (rewrite b).2))
+
+/-- Replace the leaves that read a binding (register `n + j`) by the tree `σ[j]`. -/
+def Term.subst (n : Nat) (σ : List Term) : Term → Term
+  | .input i s => if i < n then .input i s else (σ[i - n]?).getD (.input i s)
+  | .reshape x s => .reshape (x.subst n σ) s
+  | .transpose x p => .transpose (x.subst n σ) p
+  | .broadcastTo x s => .broadcastTo (x.subst n σ) s
+  | .concat1 x axis => .concat1 (x.subst n σ) axis
+  | .concat2 x y axis => .concat2 (x.subst n σ) (y.subst n σ) axis
+  | .cast x => .cast (x.subst n σ)
+  | .op2 f x y s => .op2 f (x.subst n σ) (y.subst n σ) s
+
+/-- Tree unfolding of a list of bindings over `n` graph inputs: `σ` holds the trees (over the graph inputs
+only) of the bindings processed so far; the result lists the tree of every binding. -/
+def unfoldLets (n : Nat) : List Term → List Term → List Term
+  | [], σ => σ
+  | b :: bs, σ => unfoldLets n bs (σ ++ [b.subst n σ])
 
 /-! ### Symbolic equivalence of two programs (driver kind `equiv`) -/
 
